@@ -1,0 +1,16 @@
+//go:build verif
+
+package loadbalancer
+
+// Machine-checked contracts (comment-only; build tag verif). Checked by /verif/bin/hv.
+
+//@ func jumpHash
+//@   props C06
+//@   requires 1 <= numBuckets
+//@   ensures range: 0 <= result && result < numBuckets
+//@ loop jumpHash #0
+//@   props C06
+//@   invariant bounds: -1 <= b && b < j && b < numBuckets && 0 <= j
+//@   invariant lowb: j == 0 ==> b == -1
+//@   invariant nonneg: j > 0 ==> b >= 0
+//@   decreases numBuckets - j
